@@ -695,7 +695,13 @@ func genVarCase(r *RNG, id string, o varOpts) *Case {
 	c.Set("anntext", annText)
 	refmode := r.PickStr([]string{"msa", "msa", "stdin", "ann"})
 	withIns := o.withIns && refmode != "ann"
-	m := buildMSA(r, genome, r.Range(1, 6), withIns, o.gapRich)
+	nq := r.Range(1, 6)
+	if o.agg && L <= 60 && r.Chance(1, 12) {
+		// 1024 queries: frequencies k/1024 have ten decimals exactly, so every odd k is an exact tie at the ninth
+		nq = 1024
+		c.Tag("1024-queries")
+	}
+	m := buildMSA(r, genome, nq, withIns, o.gapRich)
 	if twin[0] > 0 {
 		// most queries carry, at the second locus, exactly what they carry at the first
 		var colOf []int // alignment column of reference position p (1-based) at colOf[p]
@@ -714,6 +720,59 @@ func genVarCase(r *RNG, id string, o varOpts) *Case {
 				row[colOf[twin[1]+k]] = row[colOf[twin[0]+k]]
 			}
 			m.rows[qi] = string(row)
+		}
+	}
+	if o.agg && len(m.rows) >= 2 && r.Chance(1, 2) {
+		// two queries reach the same residue change through different codons (aggregate with --append-snps must keep
+		// their SNP lists apart): look for a codon of a forward single-segment gene with two such substitutions
+		var colOf []int
+		colOf = append(colOf, -1)
+		for ci := 0; ci < len(m.refRow); ci++ {
+			if m.refRow[ci] != '-' {
+				colOf = append(colOf, ci)
+			}
+		}
+	search:
+		for _, g := range genes {
+			if g.strand < 0 || len(g.segs) != 1 || g.codonStart != 1 {
+				continue
+			}
+			for p := g.segs[0][0]; p+2 <= g.segs[0][1]; p += 3 {
+				ref3 := [3]byte{genome[p-1], genome[p], genome[p+1]}
+				if strings.IndexByte(symACGT, ref3[0]) < 0 || strings.IndexByte(symACGT, ref3[1]) < 0 || strings.IndexByte(symACGT, ref3[2]) < 0 {
+					continue
+				}
+				byAA := map[byte][][3]byte{}
+				for k := 0; k < 3; k++ {
+					for _, b := range []byte(symACGT) {
+						if b == ref3[k] {
+							continue
+						}
+						alt := ref3
+						alt[k] = b
+						if aa := codonAA(alt); aa != codonAA(ref3) && aa != '?' {
+							byAA[aa] = append(byAA[aa], alt)
+						}
+					}
+				}
+				for _, aa := range []byte("ACDEFGHIKLMNPQRSTVWY*") {
+					if alts := byAA[aa]; len(alts) >= 2 {
+						qi, qj := r.Intn(len(m.rows)), r.Intn(len(m.rows)-1)
+						if qj >= qi {
+							qj++
+						}
+						for t, q := range []int{qi, qj} {
+							row := []byte(m.rows[q])
+							for k := 0; k < 3; k++ {
+								row[colOf[p+k]] = alts[t][k]
+							}
+							m.rows[q] = string(row)
+						}
+						c.Tag("same-residue-change-two-codons")
+						break search
+					}
+				}
+			}
 		}
 	}
 	names, rows := m.names, m.rows
